@@ -148,6 +148,35 @@ pub(super) fn update_times_forward(est_times: &mut [EstTime], time_depart: si::T
     }
 }
 
+/// Finish the alternate previous (fake) nodes of a node whose time is final and add them to the queue.  
+/// The queue is ordered by the time the node before the fake node would get,
+/// which may be a split node that has to be finished from its best branch.
+fn push_prev_alts(
+    est_times: &mut [EstTime],
+    is_est_passed: &mut [bool],
+    queue: &mut BinaryHeap<EstTimePrev>,
+    idx_join: EstIdx,
+) {
+    let mut idx_join = idx_join;
+    loop {
+        let idx_prev_alt = est_times[idx_join.idx()].idx_prev_alt;
+        if idx_prev_alt == EST_IDX_NA {
+            break;
+        }
+        let time_sched = est_times[idx_join.idx()].time_sched;
+        let time_sub_alt = est_times[idx_prev_alt.idx()].time_sched - time_sched;
+        est_times[idx_prev_alt.idx()].time_sched = time_sched;
+        is_est_passed[idx_prev_alt.idx()] = true;
+        let idx_prev = est_times[idx_prev_alt.idx()].idx_prev;
+        queue.push(EstTimePrev::new(
+            time_sched - est_times[idx_prev.idx()].time_to_next,
+            time_sub_alt,
+            idx_prev_alt,
+        ));
+        idx_join = idx_prev_alt;
+    }
+}
+
 /// Run shortest path backward on estimated time network.  
 /// This adjusts the linking of all split nodes
 /// and adjusts the scheduled times to reflects the shortest paths.
@@ -158,11 +187,16 @@ pub(super) fn update_times_backward(est_times: &mut [EstTime]) {
     is_est_passed[est_times.len() - 2] = true;
 
     let mut queue = BinaryHeap::new();
-    queue.push(EstTimePrev::new(
-        si::Time::ZERO,
-        si::Time::ZERO,
-        est_times.len() as EstIdx - 2,
-    ));
+    {
+        let idx_end = est_times.len() as EstIdx - 2;
+        let idx_prev = est_times[idx_end.idx()].idx_prev;
+        queue.push(EstTimePrev::new(
+            est_times[idx_end.idx()].time_sched - est_times[idx_prev.idx()].time_to_next,
+            si::Time::ZERO,
+            idx_end,
+        ));
+        push_prev_alts(est_times, &mut is_est_passed, &mut queue, idx_end);
+    }
 
     while !queue.is_empty() {
         let (mut idx_curr, time_sub) = {
@@ -208,21 +242,15 @@ pub(super) fn update_times_backward(est_times: &mut [EstTime]) {
 
         // Iterate until reaching any split node (but process the first node)
         loop {
-            let idx_prev_alt = est_times[idx_curr.idx()].idx_prev_alt;
-            if idx_prev_alt != EST_IDX_NA {
-                let time_sched = est_times[idx_curr.idx()].time_sched;
-                let time_sub_alt = est_times[idx_prev_alt.idx()].time_sched - time_sched;
-                est_times[idx_prev_alt.idx()].time_sched = time_sched;
-                is_est_passed[idx_prev_alt.idx()] = true;
-                queue.push(EstTimePrev::new(time_sched, time_sub_alt, idx_prev_alt));
-            }
-
             assert!(!is_est_passed[idx_prev.idx()]);
             est_times[idx_prev.idx()].time_sched -= time_sub;
             is_est_passed[idx_prev.idx()] = true;
 
             idx_curr = idx_prev;
             idx_prev = est_times[idx_prev.idx()].idx_prev;
+
+            // The time of this node is final, so its alternate previous nodes can be added
+            push_prev_alts(est_times, &mut is_est_passed, &mut queue, idx_curr);
 
             // Break if the prev node is a split node or the first node
             if est_times[idx_prev.idx()].idx_next_alt != EST_IDX_NA
@@ -235,7 +263,10 @@ pub(super) fn update_times_backward(est_times: &mut [EstTime]) {
         // If the node has not been passed, add it
         if !is_est_passed[idx_prev.idx()] {
             // If this is the second node, finish it and the first node and do not add them
-            if est_times[idx_prev.idx()].idx_prev == EST_IDX_NA {
+            // (unless it is a split node, which has to wait for its best branch)
+            if est_times[idx_prev.idx()].idx_prev == EST_IDX_NA
+                && est_times[idx_prev.idx()].idx_next_alt == EST_IDX_NA
+            {
                 est_times[idx_prev.idx()].time_sched = est_times[idx_curr.idx()].time_sched;
                 est_times[EST_IDX_NA.idx()].time_sched = est_times[idx_curr.idx()].time_sched;
                 is_est_passed[idx_prev.idx()] = true;
